@@ -38,7 +38,7 @@ CHECKS = {
             "DESIGN.md section 6 C08"),
     "C13": ("TLA+ OFXAggregate over the exported live schema: TLC first-order schema invariants per class + TLC-computed minimal documents + per-child construct/write/read probe trace-validated",
             "TLC evaluates, for each of the 390 classes, first-order invariants over the exported declarations (child named after its class, class found by tag, exclusivity groups well-formed and in force wherever inherited, list children adjacent, minimal document accepted); for every declared child a document holding it is built, written and read back by the library and TLC's document machine judges both constructions and the equality of the two models.",
-            "Trusted: TLC, the declaration exporter (walks the MRO itself, never calls cls.spec/_superdict), the extra-rule table transcribed from OFX prose. Exhaustive over the finite schema. Two known findings (tax1099 classes).",
+            "Trusted: TLC, the declaration exporter (walks the MRO itself, never calls cls.spec/_superdict), the extra-rule table transcribed from OFX prose. Exhaustive over the finite schema. Two former findings (tax1099 classes) were repaired in /repo (fix commits 0469982, 9585118) and are checked like everything else.",
             "DESIGN.md section 6 C13"),
     "C04": ("TLA+ OFXAggregate document machine: every (class, constraint, violating/boundary variant) of the TLC-computed minimal document through both construction routes, trace-validated",
             "For every class and every constraint it declares or inherits (required child, optional/required groups declared anywhere in the MRO, enumerations, string length, integer digits, order, duplicates, slot kinds, list member types, unknown keywords) the violating and the boundary variant of the minimal document is built through from_etree and through keyword construction; TLC runs the document machine on the same tokens and judges accept/reject, cross-checks the generator's intention, and re-validates every returned instance after writing it.",
@@ -54,7 +54,7 @@ CHECKS = {
             "DESIGN.md section 6 C07"),
     "C01": ("Composition OFXFile = OFXHeader + OFXSyntax + OFXAggregate: instances of all classes written by OFXClient.serialize in all wire forms; TLC reads the written bytes to an instance and compares with the original and with what the library reads back",
             "TLC-simulated valid instances of all classes (rich values, non-UTC zones, sub-ms parts) and the minimal instance of every class are written in XML / SGML closed / SGML unclosed x plain / pretty x header versions and read back; TLC reads the same bytes with the reference header reading, lexer, tree builder and document machine and judges: the file is well-formed and denotes the original instance, and the model read back equals it.",
-            "Trusted: TLC, the three specification layers, the instance projection (instants to the ms, decimal sign/digits/exponent, exact strings). Two known findings (unclosed form with an empty aggregate; TAX1099INT_V100 list slot).",
+            "Trusted: TLC, the three specification layers, the instance projection (instants to the ms, decimal sign/digits/exponent, exact strings). One known finding (unclosed form with an empty aggregate); the former TAX1099INT_V100 list-slot finding was repaired in /repo (0469982).",
             "DESIGN.md section 6 C01"),
     "C11": ("Composition OFXFile with the Lexical predicates of OFXTypes: adversarial values set on instances of all classes, written in all wire forms; TLC judges every written data element",
             "Instances of all classes get adversarial values through the model's own attribute interface (decimals of any exponent, NaN/Infinity, markup and entity-like strings, date-times in any zone with arbitrary names, bool for integers); each is written in the wire forms and TLC reads the bytes: every data element must be lexically valid for its declared type and clean on the wire ('<' never raw, '&' only starting an entity); a refusal to write is an accepted outcome.",
